@@ -19,6 +19,7 @@ LEVEL = "exploration"
 CASES = {"quick": 330, "thorough": 8000}
 WALL_CAP = {"quick": 1500, "thorough": 5 * 3600}
 RELATIONS = ["repeat", "host", "history", "order", "subset"]
+WEIGHTS = {"shared_instants": 0.5, "confusable": 0.25, "few_prices": 0.4, "micro": 0.4, "mixed_tz": 0.9}
 CRASH_WORLDS = {"quick": 1, "thorough": 6}
 CRASH_STRIDE = {"quick": 3, "thorough": 1}
 RULE = ("one case = a reference run of a generated valid world (all instants distinct) + option tuple in a pristine directory under the "
@@ -39,12 +40,12 @@ PROBES = ["reference_failed", "history_crashed_run", "history_io_faulted_run", "
 
 def make_case(seed, facts, index=0):
     rng = random.Random(seed)
-    base = c16.make_case(rng.randint(0, 2**62), facts, index)
+    base = c16.make_case(rng.randint(0, 2**62), facts, index, weights=WEIGHTS)
     # C17 needs unique ids (dump normalisation) and distinct instants; both hold by construction of the generator
     tries = 0
     while (not W.distinct_instants(base["world"]) or "unique_id" not in base["world"]["headers"]["IN"] or "unique_id" not in base["world"]["headers"]["OUT"]
            or "unique_id" not in base["world"]["headers"]["INTRA"]) and tries < 20:
-        base = c16.make_case(rng.randint(0, 2**62), facts, index)
+        base = c16.make_case(rng.randint(0, 2**62), facts, index, weights=WEIGHTS)
         tries += 1
     # the order / subset / repeat relations are most sensitive under the methods that rank lots (ties, heaps, caches): give them more weight
     fm = [m for m in facts[base["opts"]["country"]]["methods"] if m != "fifo"]
@@ -134,7 +135,7 @@ def _make_relation(rng, kind, base, facts):
     elif kind == "subset":
         names = sorted(s["name"] for s in base["world"]["sheets"])
         rel["asset"] = rng.choice(names)
-        rel["via"] = rng.choice(["option", "world", "both"])
+        rel["via"] = rng.choice(["option", "world", "both", "both"])
         others = [n for n in names if n != rel["asset"]]
         if len(others) >= 2 and rng.random() < 0.6:
             # a proper multi-asset subset: X together with some, not all, of the other assets
@@ -298,7 +299,7 @@ def exec_case(case, facts, src=None):
                     cfg, ods = W.materialize(hw)
                     io_faults, crash_at = None, None
                     if h["mode"] == "input_fault":
-                        allf = faults.enumerate_faults(hw, ho, facts) + faults.enumerate_oddities(hw, ho)
+                        allf = faults.enumerate_faults(hw, ho, facts) + faults.enumerate_oddities(hw, ho, facts)
                         cfg, ods, ho = faults.apply_fault(hw, ho, allf[h["fault_pick"] % len(allf)])
                         ho.pop("cmd_fault", None)
                     elif h["mode"] == "io_fault":
